@@ -24,11 +24,20 @@ def is_app_of(t, f) -> bool:
     return z3.is_app(t) and t.decl().eq(f)
 
 
-def collect(terms):
-    """Return (pow2 args, bl args, div/mod nodes, ipow apps) occurring in `terms`."""
+_COLLECT = {}     # formula id -> (formula, p2, bls, dms, ipows)
+_AX = {}          # key -> list[(name, axiom)]
+_KEEP = []
+
+
+def _collect1(f):
+    """(pow2 args, bl args, div/mod nodes, ipow apps) occurring in one formula; cached by AST id."""
+    fid = f.get_id()
+    hit = _COLLECT.get(fid)
+    if hit is not None:
+        return hit[1:]
     seen = set()
     p2, bls, dms, ipows = {}, {}, {}, {}
-    stack = list(terms)
+    stack = [f]
     while stack:
         t = stack.pop()
         i = t.get_id()
@@ -40,15 +49,29 @@ def collect(terms):
             continue
         if z3.is_app(t):
             d = t.decl()
-            if d.eq(pow2):
-                p2[t.arg(0).get_id()] = t.arg(0)
-            elif d.eq(bl):
-                bls[t.arg(0).get_id()] = t.arg(0)
-            elif d.eq(ipow):
-                ipows[i] = t
-            elif d.kind() in (z3.Z3_OP_IDIV, z3.Z3_OP_MOD):
+            k = d.kind()
+            if k == z3.Z3_OP_UNINTERPRETED:
+                if d.eq(pow2):
+                    p2[t.arg(0).get_id()] = t.arg(0)
+                elif d.eq(bl):
+                    bls[t.arg(0).get_id()] = t.arg(0)
+                elif d.eq(ipow):
+                    ipows[i] = t
+            elif k in (z3.Z3_OP_IDIV, z3.Z3_OP_MOD):
                 dms[i] = t
             stack.extend(t.children())
+    _COLLECT[fid] = (f, p2, bls, dms, ipows)
+    return p2, bls, dms, ipows
+
+
+def collect(terms):
+    p2, bls, dms, ipows = {}, {}, {}, {}
+    for f in terms:
+        a, b, c, d = _collect1(f)
+        p2.update(a)
+        bls.update(b)
+        dms.update(c)
+        ipows.update(d)
     return p2, bls, dms, ipows
 
 
@@ -59,133 +82,155 @@ def _const_val(t):
     return None
 
 
+def _ax_pow2(a, last):
+    P = pow2(a)
+    out = [('P.pos', z3.Implies(a >= 0, P >= 1)),
+           ('P.zero', z3.Implies(a == 0, P == 1)),
+           ('P.one', z3.Implies(a == 1, P == 2)),
+           ('P.two', z3.Implies(a == 2, P == 4)),
+           ('P.ge', z3.Implies(a >= 0, P > a))]
+    if not last:
+        out.append(('P.step', z3.Implies(a >= 1, P == 2 * pow2(a - 1))))
+    return out
+
+
+def _ax_bl(c, last):
+    B = bl(c)
+    out = [('B.zero', z3.Implies(c == 0, B == 0)),
+           ('B.nonneg', z3.Implies(c >= 0, B >= 0)),
+           ('B.one', z3.Implies(c == 1, B == 1)),
+           ('B.pos', z3.Implies(c > 0, B >= 1))]
+    if not last:
+        out.append(('B.bracket', z3.Implies(c > 0, z3.And(pow2(B - 1) <= c, c < pow2(B)))))
+        out.append(('B.bracket2', z3.Implies(c > 0, pow2(B) == 2 * pow2(B - 1))))
+    if z3.is_app(c):
+        k = c.decl().kind()
+        if k == z3.Z3_OP_IDIV and is_app_of(c.arg(1), pow2):
+            x, kk = c.arg(0), c.arg(1).arg(0)
+            out.append(('S1', z3.Implies(z3.And(x >= 0, kk >= 0),
+                                         B == z3.If(bl(x) - kk >= 0, bl(x) - kk, 0))))
+        if k == z3.Z3_OP_MOD and is_app_of(c.arg(1), pow2):
+            x, kk = c.arg(0), c.arg(1).arg(0)
+            out.append(('S3', z3.Implies(z3.And(kk >= 0), B <= kk)))
+        if k == z3.Z3_OP_MUL and c.num_args() == 2:
+            for x, pk in ((c.arg(0), c.arg(1)), (c.arg(1), c.arg(0))):
+                if is_app_of(pk, pow2):
+                    kk = pk.arg(0)
+                    out.append(('S2', z3.Implies(z3.And(x > 0, kk >= 0), B == bl(x) + kk)))
+    return out
+
+
+def _ax_pp(a, b, last, heavy):
+    Pa, Pb = pow2(a), pow2(b)
+    out = [('PP.mono', z3.Implies(z3.And(a >= 0, a <= b), Pa <= Pb)),
+           ('PP.mono', z3.Implies(z3.And(b >= 0, b <= a), Pb <= Pa)),
+           ('PP.strict', z3.Implies(z3.And(a >= 0, a < b), 2 * Pa <= Pb)),
+           ('PP.strict', z3.Implies(z3.And(b >= 0, b < a), 2 * Pb <= Pa))]
+    if heavy and not last:
+        out.append(('PP.split', z3.Implies(z3.And(a >= 0, a <= b), Pb == Pa * pow2(b - a))))
+        out.append(('PP.split', z3.Implies(z3.And(b >= 0, b <= a), Pa == Pb * pow2(a - b))))
+    return out
+
+
+def _ax_bb(a, b):
+    return [('BB.mono', z3.Implies(z3.And(a >= 0, a <= b), bl(a) <= bl(b))),
+            ('BB.mono', z3.Implies(z3.And(b >= 0, b <= a), bl(b) <= bl(a))),
+            ('S7', z3.Implies(z3.And(a >= 0, b == a + 1, bl(b) > bl(a)), b == pow2(bl(a)))),
+            ('S7', z3.Implies(z3.And(b >= 0, a == b + 1, bl(a) > bl(b)), a == pow2(bl(b)))),
+            ('S7b', z3.Implies(z3.And(a >= 0, b == a + 1), bl(b) <= bl(a) + 1)),
+            ('S7b', z3.Implies(z3.And(b >= 0, a == b + 1), bl(a) <= bl(b) + 1))]
+
+
+def _ax_bp(x, k):
+    return [('S4', z3.Implies(z3.And(x >= 0, k >= 0), (bl(x) <= k) == (x < pow2(k)))),
+            ('S4b', z3.Implies(k >= 0, z3.Implies(x == pow2(k), bl(x) == k + 1)))]
+
+
+def _ax_dm(t, last, heavy):
+    out = []
+    num, den = t.arg(0), t.arg(1)
+    if is_app_of(den, pow2):
+        k = den.arg(0)
+        q = num / den
+        r = num % den
+        out.append(('DM.def', z3.Implies(k >= 0, z3.And(num == q * den + r, r >= 0, r < den))))
+        out.append(('DM.nonneg', z3.Implies(z3.And(k >= 0, num >= 0), z3.And(q >= 0, q <= num))))
+        out.append(('DM.small', z3.Implies(z3.And(k >= 0, num >= 0, num < den), z3.And(q == 0, r == num))))
+        if z3.is_app(num) and num.decl().kind() == z3.Z3_OP_MUL and num.num_args() == 2:
+            for a_, pj in ((num.arg(0), num.arg(1)), (num.arg(1), num.arg(0))):
+                if is_app_of(pj, pow2):
+                    j = pj.arg(0)
+                    out.append(('S6', z3.Implies(z3.And(k >= 0, k <= j), r == 0)))
+                    if heavy and not last:
+                        out.append(('S6q', z3.Implies(z3.And(k >= 0, k <= j), q == a_ * pow2(j - k))))
+    return out
+
+
+def _ax_ipow(t):
+    b_, e_ = t.arg(0), t.arg(1)
+    return [('IP.zero', z3.Implies(e_ == 0, t == 1)),
+            ('IP.one', z3.Implies(e_ == 1, t == b_)),
+            ('IP.pos', z3.Implies(z3.And(b_ > 0, e_ >= 0), t > 0)),
+            ('IP.nonneg', z3.Implies(z3.And(b_ >= 0, e_ >= 0), t >= 0)),
+            ('IP.zerob', z3.Implies(z3.And(b_ == 0, e_ > 0), t == 0)),
+            ('IP.two', z3.Implies(z3.And(b_ == 2, e_ >= 0), t == pow2(e_)))]
+
+
+def _cached(key, fn):
+    hit = _AX.get(key)
+    if hit is None:
+        hit = fn()
+        _AX[key] = hit
+    return hit
+
+
 def instantiate(formulas, rounds: int = 2, heavy: bool = True):
-    """Ground axiom instances for the pow2/bl terms occurring in `formulas`."""
+    """Ground axiom instances for the pow2/bl terms occurring in `formulas` (cached per term)."""
     axioms = []
     names = []
-    done_p2, done_bl, done_pair, done_dm = set(), set(), set(), set()
+    done = set()
     work = list(formulas)
 
-    def add(name, ax):
-        axioms.append(ax)
-        names.append(name)
+    def emit(key, fn):
+        if key in done:
+            return
+        done.add(key)
+        for nm, ax in _cached(key, fn):
+            axioms.append(ax)
+            names.append(nm)
 
     for rnd in range(rounds):
         p2, bls, dms, ipows = collect(work + axioms)
         last = rnd == rounds - 1
-        # ---- unary pow2 ----
         for i, a in p2.items():
-            if i in done_p2:
+            if ('p', i, False) in done:
                 continue
-            done_p2.add(i)
-            P = pow2(a)
-            add('P.pos', z3.Implies(a >= 0, P >= 1))
-            add('P.zero', z3.Implies(a == 0, P == 1))
-            add('P.one', z3.Implies(a == 1, P == 2))
-            add('P.two', z3.Implies(a == 2, P == 4))
-            add('P.ge', z3.Implies(a >= 0, P > a))
-            if not last:
-                add('P.step', z3.Implies(a >= 1, P == 2 * pow2(a - 1)))
-        # ---- unary bl ----
+            emit(('p', i, last), lambda a=a: _ax_pow2(a, last))
         for i, c in bls.items():
-            if i in done_bl:
+            if ('b', i, False) in done:
                 continue
-            done_bl.add(i)
-            B = bl(c)
-            add('B.zero', z3.Implies(c == 0, B == 0))
-            add('B.nonneg', z3.Implies(c >= 0, B >= 0))
-            add('B.one', z3.Implies(c == 1, B == 1))
-            add('B.pos', z3.Implies(c > 0, B >= 1))
-            if not last:
-                add('B.bracket', z3.Implies(c > 0, z3.And(pow2(B - 1) <= c, c < pow2(B))))
-                add('B.bracket2', z3.Implies(c > 0, pow2(B) == 2 * pow2(B - 1)))
-            # shape schemas
-            if z3.is_app(c):
-                k = c.decl().kind()
-                if k == z3.Z3_OP_IDIV and is_app_of(c.arg(1), pow2):
-                    x, kk = c.arg(0), c.arg(1).arg(0)
-                    add('S1', z3.Implies(z3.And(x >= 0, kk >= 0),
-                                         B == z3.If(bl(x) - kk >= 0, bl(x) - kk, 0)))
-                if k == z3.Z3_OP_MOD and is_app_of(c.arg(1), pow2):
-                    x, kk = c.arg(0), c.arg(1).arg(0)
-                    add('S3', z3.Implies(z3.And(kk >= 0), B <= kk))
-                if k == z3.Z3_OP_MUL and c.num_args() == 2:
-                    for x, pk in ((c.arg(0), c.arg(1)), (c.arg(1), c.arg(0))):
-                        if is_app_of(pk, pow2):
-                            kk = pk.arg(0)
-                            add('S2', z3.Implies(z3.And(x > 0, kk >= 0), B == bl(x) + kk))
-        # ---- pairs pow2/pow2 ----
-        p2l = list(p2.items())
-        for (i, a), (j, b) in itertools.combinations(p2l, 2):
-            key = ('pp', min(i, j), max(i, j))
-            if key in done_pair:
-                continue
-            done_pair.add(key)
-            Pa, Pb = pow2(a), pow2(b)
-            add('PP.mono', z3.Implies(z3.And(a >= 0, a <= b), Pa <= Pb))
-            add('PP.mono', z3.Implies(z3.And(b >= 0, b <= a), Pb <= Pa))
-            add('PP.strict', z3.Implies(z3.And(a >= 0, a < b), 2 * Pa <= Pb))
-            add('PP.strict', z3.Implies(z3.And(b >= 0, b < a), 2 * Pb <= Pa))
-            if heavy and not last:
-                add('PP.split', z3.Implies(z3.And(a >= 0, a <= b), Pb == Pa * pow2(b - a)))
-                add('PP.split', z3.Implies(z3.And(b >= 0, b <= a), Pa == Pb * pow2(a - b)))
-        # ---- pairs bl/bl ----
-        bll = list(bls.items())
-        for (i, a), (j, b) in itertools.combinations(bll, 2):
-            key = ('bb', min(i, j), max(i, j))
-            if key in done_pair:
-                continue
-            done_pair.add(key)
-            add('BB.mono', z3.Implies(z3.And(a >= 0, a <= b), bl(a) <= bl(b)))
-            add('BB.mono', z3.Implies(z3.And(b >= 0, b <= a), bl(b) <= bl(a)))
-            # S7 carry lemma
-            add('S7', z3.Implies(z3.And(a >= 0, b == a + 1, bl(b) > bl(a)), b == pow2(bl(a))))
-            add('S7', z3.Implies(z3.And(b >= 0, a == b + 1, bl(a) > bl(b)), a == pow2(bl(b))))
-            add('S7b', z3.Implies(z3.And(a >= 0, b == a + 1), bl(b) <= bl(a) + 1))
-            add('S7b', z3.Implies(z3.And(b >= 0, a == b + 1), bl(a) <= bl(b) + 1))
-        # ---- pairs bl/pow2 ----
+            emit(('b', i, last), lambda c=c: _ax_bl(c, last))
+        p2l = sorted(p2.items())
+        for x in range(len(p2l)):
+            for y in range(x + 1, len(p2l)):
+                (i, a), (j, b) = p2l[x], p2l[y]
+                if ('pp', i, j, False, heavy) in done:
+                    continue
+                emit(('pp', i, j, last, heavy), lambda a=a, b=b: _ax_pp(a, b, last, heavy))
+        bll = sorted(bls.items())
+        for x in range(len(bll)):
+            for y in range(x + 1, len(bll)):
+                (i, a), (j, b) = bll[x], bll[y]
+                emit(('bb', i, j), lambda a=a, b=b: _ax_bb(a, b))
         for (i, x) in bll:
             for (j, k) in p2l:
-                key = ('bp', i, j)
-                if key in done_pair:
-                    continue
-                done_pair.add(key)
-                add('S4', z3.Implies(z3.And(x >= 0, k >= 0), (bl(x) <= k) == (x < pow2(k))))
-                add('S4b', z3.Implies(k >= 0, z3.Implies(x == pow2(k), bl(x) == k + 1)))
-        # ---- div / mod by pow2 ----
-        for i, t in dms.items():
-            if i in done_dm:
+                emit(('bp', i, j), lambda x=x, k=k: _ax_bp(x, k))
+        for i, t in sorted(dms.items()):
+            if ('dm', i, False, heavy) in done:
                 continue
-            done_dm.add(i)
-            num, den = t.arg(0), t.arg(1)
-            if is_app_of(den, pow2):
-                k = den.arg(0)
-                q = num / den
-                r = num % den
-                add('DM.def', z3.Implies(k >= 0, z3.And(num == q * den + r, r >= 0, r < den)))
-                add('DM.nonneg', z3.Implies(z3.And(k >= 0, num >= 0), z3.And(q >= 0, q <= num)))
-                add('DM.small', z3.Implies(z3.And(k >= 0, num >= 0, num < den), z3.And(q == 0, r == num)))
-                # S6: (a * pow2(j)) mod pow2(k) == 0 for k <= j
-                if z3.is_app(num) and num.decl().kind() == z3.Z3_OP_MUL and num.num_args() == 2:
-                    for a_, pj in ((num.arg(0), num.arg(1)), (num.arg(1), num.arg(0))):
-                        if is_app_of(pj, pow2):
-                            j = pj.arg(0)
-                            add('S6', z3.Implies(z3.And(k >= 0, k <= j), r == 0))
-                            if heavy and not last:
-                                add('S6q', z3.Implies(z3.And(k >= 0, k <= j), q == a_ * pow2(j - k)))
-        # ---- ipow ----
-        for i, t in ipows.items():
-            key = ('ip', i)
-            if key in done_pair:
-                continue
-            done_pair.add(key)
-            b_, e_ = t.arg(0), t.arg(1)
-            add('IP.zero', z3.Implies(e_ == 0, t == 1))
-            add('IP.one', z3.Implies(e_ == 1, t == b_))
-            add('IP.pos', z3.Implies(z3.And(b_ > 0, e_ >= 0), t > 0))
-            add('IP.nonneg', z3.Implies(z3.And(b_ >= 0, e_ >= 0), t >= 0))
-            add('IP.zerob', z3.Implies(z3.And(b_ == 0, e_ > 0), t == 0))
-            add('IP.two', z3.Implies(z3.And(b_ == 2, e_ >= 0), t == pow2(e_)))
+            emit(('dm', i, last, heavy), lambda t=t: _ax_dm(t, last, heavy))
+        for i, t in sorted(ipows.items()):
+            emit(('ip', i), lambda t=t: _ax_ipow(t))
     return axioms, names
 
 
